@@ -1,6 +1,6 @@
 (* C13 - packs are append-only and filled in order.  Statements only. *)
 From Coq Require Import List ZArith NArith.
-From DOS Require Import Base Store StoreProofs StoreLemmas Mono MonoStep PickPack.
+From DOS Require Import Base Store StoreProofs StoreLemmas Mono MonoStep PickPack Programs PackProofs AddPackProofs ImportProofs C13Proofs.
 Import ListNotations.
 
 Section C13.
@@ -23,6 +23,26 @@ Proof. exact (c13_all_sound H inflate H_inj). Qed.
 (* packs only grow along any monotone history *)
 Theorem C13_monotone_history_keeps_referenced_bytes : forall w w', Inv H inflate w -> Mono w w' -> keeps_ref w w'.
 Proof. exact (mono_keeps_ref H inflate). Qed.
+(* program level, ALL inputs: every single step of add_objects_to_pack / add_streamed_objects_to_pack (one pack, all three modes - the
+   no_holes truncations included) and of the transfer of import_objects (any batches over any packs) keeps every referenced byte of
+   every pack and never cuts a pack below its last referenced byte *)
+Theorem C13_add_to_pack_every_step : forall w l id objs nh twice fs,
+  Inv H inflate w -> pending l = [] -> Forall (aobj_ok H inflate) objs ->
+  forall a e b, p_add_to_pack w id objs nh twice fs = a ++ e :: b ->
+    keeps_ref (fst (run_events (w, l) a)) (fst (run_events (w, l) (a ++ [e]))).
+Proof. exact (add_to_pack_every_step_keeps_ref H inflate H_inj). Qed.
+
+Theorem C13_import_every_step : forall w l bs nh twice fs,
+  Inv H inflate w -> pending l = [] -> Forall (fun b => Forall (aobj_ok H inflate) (snd b)) bs ->
+  forall a e b, p_import w nh twice fs bs = a ++ e :: b ->
+    keeps_ref (fst (run_events (w, l) a)) (fst (run_events (w, l) (a ++ [e]))).
+Proof. exact (import_every_step_keeps_ref H inflate H_inj). Qed.
+
+(* the reason: truncations of these programs never cut below the length the pack had when the call began, their commit only inserts *)
+Theorem C13_import_steps_pass_the_side_conditions : forall w l bs nh twice fs,
+  Inv H inflate w -> pending l = [] ->
+  forall a e b, p_import w nh twice fs bs = a ++ e :: b -> c13_ok_b H (run_events (w, l) a) e = true.
+Proof. exact (import_every_step_c13 H inflate). Qed.
 End C13.
 (* layout half: _get_pack_id_to_write_to, from any cached id <= n, returns the last pack when that is below the target and the next
    fresh id otherwise - never an earlier (full) pack; so writing to the chosen pack keeps "ids consecutive from 0 and every pack
@@ -38,3 +58,6 @@ Print Assumptions C13_pack_choice_keeps_layout.
 Print Assumptions C13_step_keeps_referenced_bytes.
 Print Assumptions C13_trace_checker_sound.
 Print Assumptions C13_monotone_history_keeps_referenced_bytes.
+Print Assumptions C13_add_to_pack_every_step.
+Print Assumptions C13_import_every_step.
+Print Assumptions C13_import_steps_pass_the_side_conditions.
